@@ -356,8 +356,9 @@ def run_c23(tier, seed):
     from . import family_arch, family_graph, family_str
     prop = "C23"
     ev = Evidence(prop, tier, seed, "exploration")
-    ev.rule = ("every simulated link of a model-valid generated input (graph, string-merge and archive "
-               "families, all their option swarms; WILD_VERIFY_ALLOCATIONS=1 on a tenth of the graph "
+    ev.rule = ("every simulated link of a model-valid generated input (graph, string-merge, archive and "
+               "dynamic-linking families - the last with copy relocations, pointers to shared-library "
+               "data/functions in writable data, weak aliases and TLS -, all their option swarms; WILD_VERIFY_ALLOCATIONS=1 on a tenth of the graph "
                "runs) must not fail with an allocation/size-accounting error. distinct_nontrivial = "
                "distinct (family, workload, interleaving-hash) with a context switch")
     ev.assumptions = ["inputs are generated families, not all programs",
@@ -373,6 +374,18 @@ def run_c23(tier, seed):
         ev.distinct = set()
         v = _collect(prop, ev, pool_imap(fam.run_job, jobs))
         ev.distinct = before | {f"{name}:{d}" for d in ev.distinct}
+        violations += v
+    # Dynamic executables/PIEs/shared objects against generated shared libraries (copy relocations,
+    # pointers to library data and functions in writable data, weak aliases, TLS): family_det's
+    # classes, where a link that fails with an allocation error is a C23 violation.
+    from . import family_det
+    for ctype, n in (("dyn", 12), ("tls", 6)):
+        jobs = [{"prop": prop, "seed": seed, "index": 5000 + i, "tier": tier, "schedules": nsched,
+                 "ctype": ctype} for i in range(n * scale)]
+        before = set(ev.distinct)
+        ev.distinct = set()
+        v = _collect(prop, ev, pool_imap(family_det.run_job, jobs))
+        ev.distinct = before | {f"{ctype}:{d}" for d in ev.distinct}
         violations += v
     violations += _add_real_family(prop, tier, seed, ev)
     return report_and_exit(prop, ev, violations)
